@@ -172,6 +172,57 @@ theorem findIdx?_agree {α : Type} (l : List α) (p q : α → Bool) (h : ∀ x 
     simp only [List.findIdx?_cons, h a (by simp)]
     rw [ih (fun x hx => h x (by simp [hx]))]
 
+/-- the last raw text a file section holds for a key -/
+def lastRaw : List (Str × Str) → Str → Option Str
+  | [], _ => none
+  | (k', v) :: r, k => match lastRaw r k with
+    | some w => some w
+    | none => if k' = k then some v else none
+
+theorem coerceAll_cons (k v : Str) (r : List (Str × Str)) (d : Dict) (h : coerceAll ((k, v) :: r) = some d) :
+    ∃ x d', fileCoerce k v = some x ∧ coerceAll r = some d' ∧ d = (k, x) :: d' := by
+  simp only [coerceAll] at h
+  cases hx : fileCoerce k v with
+  | none => simp [hx] at h
+  | some x =>
+    cases hd : coerceAll r with
+    | none => simp [hx, hd] at h
+    | some d' => simp [hx, hd] at h; exact ⟨x, d', rfl, rfl, h.symm⟩
+
+theorem lastRaw_valid (items : List (Str × Str)) (d : Dict) (h : coerceAll items = some d) (k w : Str)
+    (hw : lastRaw items k = some w) : ∃ x, fileCoerce k w = some x := by
+  induction items generalizing d with
+  | nil => simp [lastRaw] at hw
+  | cons hd tl ih =>
+    obtain ⟨k', v⟩ := hd
+    obtain ⟨x, d', hx, hd', _⟩ := coerceAll_cons k' v tl d h
+    simp only [lastRaw] at hw
+    cases hl : lastRaw tl k with
+    | some w' => rw [hl] at hw; injection hw with hw; subst hw; exact ih d' hd' hl
+    | none =>
+      rw [hl] at hw
+      by_cases hk : k' = k
+      · simp [hk] at hw; subst hw; subst hk; exact ⟨x, hx⟩
+      · simp [hk] at hw
+
+theorem dlast_coerced (items : List (Str × Str)) (d : Dict) (h : coerceAll items = some d) (k : Str) :
+    dlast d k = (lastRaw items k).bind (fileCoerce k) := by
+  induction items generalizing d with
+  | nil => simp [coerceAll] at h; subst h; rfl
+  | cons hd tl ih =>
+    obtain ⟨k', v⟩ := hd
+    obtain ⟨x, d', hx, hd', e⟩ := coerceAll_cons k' v tl d h
+    subst e
+    simp only [dlast, lastRaw, ih d' hd']
+    cases hl : lastRaw tl k with
+    | some w =>
+      obtain ⟨y, hy⟩ := lastRaw_valid tl d' hd' k w hl
+      simp [hy]
+    | none =>
+      by_cases hk : k' = k
+      · subst hk; simp [hx]
+      · simp [hk]
+
 /-- the stages of a successful `loadAll` -/
 theorem loadAll_ok (inp : Input) (s : Dict) (h : loadAll inp = .ok s) :
     ∃ s0 cli0 s1, construct inp = .ok s0 ∧ cliDict inp.cli = .dict cli0 ∧
